@@ -1,18 +1,21 @@
 """C25 - B-tree sets behave as sorted sets under concurrent insertion.
 A  spec/SortedSetAbs.tla is the property-level spec (set of keys; overlapping inserts = Call/Lin/Ret; queries); TLC checks
-   on a small model that it states the property (success exactly once per distinct key, final set = union).
+   on a small model (SortedSetAbsMC) that it states the property: success at most / exactly once per distinct key, the
+   final set = the union of the inserted keys.
+S  spec/BTreeConc.tla, an implementation-shaped model of btree::insert's optimistic locking protocol with 3 keys per
+   node, is model-checked over all interleavings and its walks are replayed as schedules on the real tree, comparing
+   shape, lock state and yield points after every step (vf/props/c25conc.py; deviation = MODEL-DRIFT).
 T  The real souffle::btree_set (3 keys per node and the default block size) is driven by harness/btreedrv.cpp:
    (a) under the cooperative scheduler (yield points = the optimistic lock primitives): depth-first enumeration of all
-       schedules with a bounded number of preemptions for 2 threads on trees pre-filled to force root growth, leaf split,
-       left-rebalance, inner split and inner rebalance, with and without operation hints; seeded random and PCT
-       schedules for 2-4 threads;
+       schedules with a bounded number of preemptions for 2 threads on trees pre-filled to force root creation, root
+       growth, leaf split, left-rebalance, inner split and inner rebalance, with and without operation hints; seeded
+       random and PCT schedules for 2-4 threads; the replayed BTreeConc walks;
    (b) with real OpenMP threads (2-8), sorted/reverse/random/duplicate/blocked key orders and a seeded perturbation
        handler at the yield points.
    Every execution's call/return events, followed by a query phase (size, iteration, contains/find/lower_bound/
    upper_bound with and without hints, getChunks), are validated by TLC against SortedSetAbs (SortedSetAbsTrace.tla).
-   A rejected history, a crash, a livelock or a broken structure at quiescence is the VIOLATION.
-S  spec/BTreeConc.tla (implementation-shaped model of the insert protocol), when present, is model-checked and its walks
-   are replayed (drift only); see run()."""
+   A rejected history, a crash (incl. an assertion of the real code), a livelock under a fair schedule or a broken
+   search-tree structure at quiescence is the VIOLATION."""
 import os, subprocess, json, random, collections
 from .. import build, tlc, tracecheck
 from ..common import workdir, seed, Result, SPEC, HARNESS, BUILD, NCPU
